@@ -50,6 +50,11 @@ CLAIMS = {
         technique="Lean 4 proofs about the per-component treatment of bonded pairs regenerated from the three sites of colour_pair.cpp (with their periodicity guard) and a model of the connected-list refresh and the bonded force loop; correspondence of every listed bond vector with the real binary; property oracle on the dumps",
         text="C19_current_periodic: the refreshed component is the minimum image (k in {-1,0,1}, range [-L/2,L/2], no nearer image); C19_current_nonperiodic: in a walled direction it is the plain difference however long the bond; creation = refresh; each listed bond is evaluated exactly once per pass and no other pair; the vector depends only on the current positions of the two partners and the box (not on cutoff, grid or pair creator).",
         note=BASE_NOTE + "Hypothesis: partners lie inside the box (C09). The iteration over the SmartList is the one verified under C15. Bit growth beyond 53 bits in multi-step runs: bonds whose plain difference is not exactly representable are compared by the oracle with a 2^-36 slack and left out of the exact model comparison (counted in the evidence)."),
+    "C17": dict(
+        level="proof", design="DESIGN.md section 3, C17 (PARTIAL)",
+        technique="Lean 4 proofs about a model of the input-validation decision chain (strict strtol/strtod syntax proved equal to an independent number grammar, unknown names, booleans, constraints, expression/size checks, box check, every single compile-step fault, error => non-zero exit); correspondence on ALL single mutations of three base inputs and on compile-step faults (gcc shims, unusable TMP) against the real binary; scanners compared with glibc",
+        text="C17_malformed_number: INT/DOUBLE attribute text is accepted iff it is a complete number (old prefix parser: witness); C17_unknown/bool/constraint/expr/size/box/compile/exit: each modelled invalid input or compile-step fault ends in an error and a non-zero exit with the time loop not started. PARTIAL: per-module setup() checks are not modelled and 'no signal, no hang' is observed only (oracle on 949 mutants).",
+        note=BASE_NOTE + "Hand-written model: the tie is the correspondence (verdict per mutant) plus the glibc comparison of the scanners; attribute tables are read from `sympler --help` at run time."),
 }
 
 
